@@ -87,7 +87,6 @@ func NewCountingWindow(config types.WindowConfig) (*CountingWindow, error) {
 	cw := &CountingWindow{
 		config:        config,
 		threshold:     threshold,
-		dataBuffer:    make([]types.Row, 0, threshold),
 		outputChan:    make(chan []types.Row, bufferSize),
 		ctx:           ctx,
 		cancelFunc:    cancel,
